@@ -403,21 +403,24 @@ impl NameCompressor {
             )
             .position(|(a, b)| a != b);
 
-            let Some(suffix_len) = suffix_len else {
+            let suffix_len = match suffix_len {
+                Some(suffix_len) => suffix_len,
+
                 // 'iter::zip()' simply ignores unequal iterators, stopping
                 // when either iterator finishes. Even though the two names
                 // had no mismatching bytes, one could be longer than the
                 // other.
-                if name.len() > entry.len() {
-                    // 'entry' is a proper suffix of 'name'. 'name' can be
-                    // compressed using 'entry', and will have at least one
-                    // more label before it. This label needs to be found and
-                    // hashed.
+                None if name.len() > entry.len() => {
+                    // The bytes of 'entry' are a proper suffix of the bytes
+                    // of 'name'. That does not mean that 'entry' starts at
+                    // a label boundary of 'name' (a length octet can look
+                    // like a character of a label), so the shared labels
+                    // and the label before them are found by walking
+                    // 'name' below.
+                    entry.len()
+                }
 
-                    let rest = &name[..name.len() - entry.len()];
-                    let hash = Self::hash_label(Self::last_label(rest));
-                    return Some((i as u8, rest, hash, pos as u16));
-                } else {
+                None => {
                     // 'name' is a suffix of 'entry'. 'name' can be
                     // compressed using 'entry', and no labels will be left.
                     let rest = &name[..0];
@@ -430,12 +433,12 @@ impl NameCompressor {
             // Walk 'name' until we reach the shared suffix region.
 
             // NOTE:
-            // - 'suffix_len < min(name.len(), entry.len())'.
+            // - 'suffix_len < name.len()' (in both cases above).
             // - 'name_labels.remaining.len() == name.len()'.
             // - Thus 'suffix_len < name_labels.remaining.len()'.
             // - Thus we can move the first statement of the loop here.
             // SAFETY:
-            // - 'name' and 'entry' have a corresponding but unequal byte.
+            // - 'name.len() > suffix_len >= 0'.
             // - Thus 'name' has at least one byte.
             // - Thus 'name' has at least one label.
             let mut name_labels = name_labels.clone();
